@@ -1,6 +1,8 @@
+import AferoVerif.Props.C01
 import AferoVerif.Props.C02
 import AferoVerif.Props.C08
 import AferoVerif.Props.C17
 import AferoVerif.Engine.MemFile
 import AferoVerif.Engine.Contains
 import AferoVerif.Engine.Path
+import AferoVerif.Engine.MemFs
